@@ -200,32 +200,22 @@ type target struct {
 
 func targetIP(i int) net.IP { return net.IPv4(127, 13, 0, byte(2+i)) }
 
-func runCase(c casePlan, workDir string) (res caseResult) {
-	probeUnreachable()
-	res.conns = make([]connResult, len(c.Conns))
-
-	// 1. targets
-	targets := make([]target, len(c.Conns))
-	defer func() {
-		for _, t := range targets {
-			if t.ln != nil {
-				t.ln.Close()
-			}
-		}
-	}()
+// makeTargets opens one listener per connection with a working destination and assigns every
+// connection its own destination address and port. The caller closes the listeners.
+func makeTargets(conns []connPlan) (targets []target, ports []uint16, harnessErr string) {
+	targets = make([]target, len(conns))
 	// every connection gets its own destination port, so that the router can be told per
 	// connection which client to use (route "to-direct" matches destination ports)
-	ports := make([]uint16, len(c.Conns))
+	ports = make([]uint16, len(conns))
 	used := map[uint16]bool{}
-	for i, p := range c.Conns {
+	for i, p := range conns {
 		ip := targetIP(i)
 		switch p.Target {
 		case tkOKIP, tkOKDomain:
 			for try := 0; ; try++ {
 				ln, err := net.ListenTCP("tcp4", &net.TCPAddr{IP: ip})
 				if err != nil {
-					res.harnessErr = "listen target: " + err.Error()
-					return
+					return targets, ports, "listen target: " + err.Error()
 				}
 				port := uint16(ln.Addr().(*net.TCPAddr).Port)
 				if used[port] && try < 20 {
@@ -257,6 +247,28 @@ func runCase(c casePlan, workDir string) (res caseResult) {
 			targets[i].addr = fmt.Sprintf("%s:%d", rejectIP, ports[i])
 		}
 		used[ports[i]] = true
+	}
+	return targets, ports, ""
+}
+
+func closeTargets(targets []target) {
+	for _, t := range targets {
+		if t.ln != nil {
+			t.ln.Close()
+		}
+	}
+}
+
+func runCase(c casePlan, workDir string) (res caseResult) {
+	probeUnreachable()
+	res.conns = make([]connResult, len(c.Conns))
+
+	// 1. targets
+	targets, ports, herr := makeTargets(c.Conns)
+	defer closeTargets(targets)
+	if herr != "" {
+		res.harnessErr = herr
+		return
 	}
 	taddrs := make([]string, len(targets))
 	for i := range targets {
@@ -425,6 +437,24 @@ func firstDelay(c casePlan, at int) time.Duration {
 		return c.T() + 10*time.Millisecond
 	case faDouble:
 		return 2 * c.T()
+	}
+	return 0
+}
+
+// lateUpload: the wait applies, the first bytes arrive well inside the window (with the handshake,
+// at 0 or at T/2) and more upload follows after the wait deadline has passed (T+50ms, 2T, 4T).
+func lateUpload(c casePlan, p connPlan) bool {
+	return c.waitApplies() && p.FirstLen > 0 && (p.FirstAt == faHandshake || p.FirstAt == faZero || p.FirstAt == faHalf) && p.RestAt != raBehind && len(p.UpRest) > 0
+}
+
+func restDelay(c casePlan, at int) time.Duration {
+	switch at {
+	case raAfterT:
+		return c.T() + 50*time.Millisecond
+	case raDouble:
+		return 2 * c.T()
+	case raQuad:
+		return 4 * c.T()
 	}
 	return 0
 }
@@ -682,6 +712,9 @@ func runConn(c casePlan, i int, frontAddr string, tg target, r *connResult) {
 			attempted += int64(p.FirstLen)
 			werr = writeChunks(cc, p.UpSeed, &upOff, []int{p.FirstLen}, idle)
 		}
+		if werr == nil && p.RestAt != raBehind && len(p.UpRest) > 0 {
+			time.Sleep(time.Until(tReady.Add(restDelay(c, p.RestAt)))) // idle-open until the wait deadline has long passed
+		}
 		for _, n := range p.UpRest {
 			if werr != nil {
 				break
@@ -761,6 +794,9 @@ func runConn(c casePlan, i int, frontAddr string, tg target, r *connResult) {
 		r.down, r.downMax = crd.n, tout.attempted
 		r.nt = true
 		r.labels = append(r.labels, "session-ended-by-reset-with-bytes-relayed", "reset-by:"+who)
+		if lateUpload(c, p) && (p.AbortBy == abClient || p.AbortClean) {
+			r.labels = append(r.labels, "early-first-bytes-then-upload-after-wait-deadline")
+		}
 		if p.AbortClean {
 			r.labels = append(r.labels, "reset:after-everything-was-read")
 		} else {
@@ -800,6 +836,9 @@ func runConn(c casePlan, i int, frontAddr string, tg target, r *connResult) {
 		firstWriteAt = tReady
 	}
 	if werr == nil {
+		if p.RestAt != raBehind && len(p.UpRest) > 0 {
+			time.Sleep(time.Until(tReady.Add(restDelay(c, p.RestAt)))) // idle-open until the wait deadline has long passed
+		}
 		werr = writeChunks(cc, p.UpSeed, &upOff, p.UpRest, idle)
 	}
 	if werr == nil {
@@ -916,6 +955,10 @@ func runConn(c casePlan, i int, frontAddr string, tg target, r *connResult) {
 		} else {
 			r.labels = append(r.labels, "path:dialled-after-first-bytes")
 		}
+	}
+	if lateUpload(c, p) {
+		r.labels = append(r.labels, "early-first-bytes-then-upload-after-wait-deadline")
+		r.nt = true
 	}
 	if p.FirstLen == 0 {
 		r.labels = append(r.labels, "client-never-sends")
